@@ -196,6 +196,11 @@ func (x *Exec) loopHeader(st *State, fr *Frame, b *ssa.BasicBlock, prev *ssa.Bas
 			}
 		}
 	}
+	if lock && fr.loops[b] && !l.body[prev] {
+		// lockstep: an enclosing loop that is being unrolled comes round to this loop again:
+		// it is reached anew, as the next cut loop on this path
+		delete(fr.loops, b)
+	}
 	if fr.loops[b] {
 		// back edge: invariant must be preserved; path ends
 		if !l.body[prev] {
@@ -223,7 +228,7 @@ func (x *Exec) loopHeader(st *State, fr *Frame, b *ssa.BasicBlock, prev *ssa.Bas
 		}
 		if lock {
 			// lockstep: the state handed to the next iteration, loop-carried values in the common order
-			return []Out{{st: st, kind: oCut, vals: permute(in, fr.lockPerm[b]), msg: fr.lockKey[b]}}, true
+			return []Out{{st: st, kind: oCut, vals: x.lockVals(st, fr, b, in), msg: fr.lockKey[b]}}, true
 		}
 		return []Out{{st: st, kind: oCut}}, true
 	}
@@ -322,6 +327,17 @@ func (x *Exec) loopHeader(st *State, fr *Frame, b *ssa.BasicBlock, prev *ssa.Bas
 		fr.loops = map[*ssa.BasicBlock]bool{}
 	}
 	fr.loops[b] = true
+	if lock {
+		if fr.lockFresh == nil {
+			fr.lockFresh = map[*ssa.BasicBlock][]*Cell{}
+		}
+		fr.lockFresh[b] = x.lockFreshWritten(written)
+		if x.dry == 0 {
+			// the state in which the loop is reached, including what the cells it is about to
+			// overwrite hold
+			x.lockEntries = append(x.lockEntries, lockRec{key: fr.lockKey[b], vals: x.lockVals(st, fr, b, in), st: st.fork()})
+		}
+	}
 	x.havocLoop(st, fr, b, nphi, written)
 	if fr.ct != nil && len(fr.ct.forget[l.ordinal]) > 0 {
 		// path-condition conjuncts about the forgotten values are dropped with them
@@ -618,9 +634,30 @@ func (x *Exec) lockEnter(st *State, fr *Frame, b *ssa.BasicBlock, in []Value) {
 		}
 	}
 	fr.lockPerm[b] = perm
-	if x.dry == 0 {
-		x.lockEntries = append(x.lockEntries, lockRec{key: lk, vals: permute(in, perm), st: st.fork()})
+}
+
+// lockFreshWritten: the cells the cut loop writes that this run allocated
+// itself (the other run does not know them), in allocation order: their
+// contents are compared position by position, like the loop-carried values.
+func (x *Exec) lockFreshWritten(written map[*Cell]bool) []*Cell {
+	var cells []*Cell
+	for c := range written {
+		if !x.lockShared[c] {
+			cells = append(cells, c)
+		}
 	}
+	sort.Slice(cells, func(i, j int) bool { return cells[i].id < cells[j].id })
+	return cells
+}
+
+// lockVals: what a cut loop hands on - loop-carried values in the common
+// order, then the contents of the fresh cells it writes.
+func (x *Exec) lockVals(st *State, fr *Frame, b *ssa.BasicBlock, in []Value) []Value {
+	vals := append([]Value{}, permute(in, fr.lockPerm[b])...)
+	for _, c := range fr.lockFresh[b] {
+		vals = append(vals, st.store[c])
+	}
+	return vals
 }
 
 
@@ -699,7 +736,8 @@ func (x *Exec) frameEnv(fr *Frame) *Env {
 // iterations are counted (see loopHeader).
 const boundTail = 13
 
-func (x *Exec) boundedFork(fr *Frame, b *ssa.BasicBlock, succ int) {
+func (x *Exec) boundedFork(fr *Frame, b *ssa.BasicBlock, succ int) (keep bool) {
+	keep = true
 	if x.boundK <= 0 {
 		return
 	}
@@ -713,11 +751,17 @@ func (x *Exec) boundedFork(fr *Frame, b *ssa.BasicBlock, succ int) {
 				fr.iterSig = map[*ssa.BasicBlock]string{}
 			}
 			fr.iterSig[h] += fmt.Sprintf("%d:%d;", b.Index, succ)
+			// in the tail (beyond the freely explored iterations) an iteration may only repeat the
+			// previous one: a branch that departs from it is dropped at once, unless it leaves the loop
+			if fr.visits[h] > x.boundK+1 && l.body[b.Succs[succ]] && !strings.HasPrefix(fr.prevSig[h], fr.iterSig[h]) {
+				keep = false
+			}
 			if x.symLoops != nil {
 				x.symLoops[loopName(fr.fn, l)] = true
 			}
 		}
 	}
+	return keep
 }
 
 // havocArrName names the unknown contents of a havocked array. In a bounded
